@@ -42,15 +42,16 @@ def base_world(mounts=('/',), **kw):
     return W
 
 
-LIST_RE = re.compile(r'^\s*(\d+) (\S+ \S+) (.*)$')
+LIST_RE = re.compile(r'^ *(\d+) (\d{4}-\d\d-\d\d \d\d:\d\d:\d\d|None) (.*)$')
 
 
 def parse_restore_listing(out):
-    """[(index, date, path)] from trash-restore stdout (paths with newlines span lines)"""
+    """[(index, date, path)] from trash-restore stdout.  A listing line is '%4d <date|None> <path>' whose
+    index is the next expected one; any other line continues the previous path (names with newlines)."""
     res = []
     for ln in out.split('\n'):
         m = LIST_RE.match(ln)
-        if m and (ln.startswith(' ') or ln[:4].strip().isdigit()) and len(ln) > 5 and ln[4] == ' ':
+        if m and int(m.group(1)) == len(res) and len(ln) > 5 and ln[:4].strip() == m.group(1):
             res.append([int(m.group(1)), m.group(2), m.group(3)])
         elif res and not ln.startswith('What file to restore') and ln != '':
             res[-1][2] += '\n' + ln
